@@ -19,8 +19,9 @@ ASSUMPTIONS = [
     "lower confidence value = mean - sqrt(ln(4 n^3/delta)/(2T)), -inf for unvisited cells; ties in rank order accepted",
     "partitions with other than 2 children per cell are a known finding of C01 and not part of this property",
 ]
-FLOOR = {"vroom_pulls_checked": {"quick": 10000, "thorough": 300000}, "rank_orders_checked": {"quick": 60000, "thorough": 2000000},
-         "vroom_chains_checked": {"quick": 10000, "thorough": 300000}}
+FLOOR = {"vroom_pulls_checked": {"quick": 6000, "thorough": 48000},
+         "rank_orders_checked": {"quick": 40000, "thorough": 320000},
+         "vroom_chains_checked": {"quick": 6000, "thorough": 48000}}
 WALL = {"quick": 1200, "thorough": 4 * 3600}
 
 
